@@ -178,7 +178,7 @@ func Close[T any](ch chan<- T) {
 	if s.aborting {
 		return
 	}
-	Point("close", nil)
+	PointObj("close", nil, *(*unsafe.Pointer)(unsafe.Pointer(&ch)), true)
 	s.closeChan(*(*unsafe.Pointer)(unsafe.Pointer(&ch)), ch, func() { close(ch) })
 }
 
@@ -203,6 +203,9 @@ func CloseNoPoint[T any](ch chan<- T) {
 	}
 	if s.aborting {
 		return
+	}
+	if s.cur != nil {
+		s.event(s.cur, *(*unsafe.Pointer)(unsafe.Pointer(&ch)), true, 8)
 	}
 	s.closeChan(*(*unsafe.Pointer)(unsafe.Pointer(&ch)), ch, func() { close(ch) })
 }
